@@ -1146,14 +1146,26 @@ func (e *engine) crashRun(ops []Op, i, k int, after bool, ioErr bool, snaps []sn
 	// An add is made durable by an append or by tmp+rename: old or new state,
 	// never less. Only a clear (truncate and rewrite) may be caught half way,
 	// which leaves a prefix of its result.
-	okHist := listsEqual(got.hist, A.hist) || listsEqual(got.hist, B.hist) || isSuffix(got.hist, A.hist) ||
+	// A suffix of the old state is what a start makes of a file that holds
+	// more than the limit - but then it keeps at least the limit's worth of
+	// the most recent forms (an empty history is a suffix of everything:
+	// seeded change C20-j1, a window without any history file).
+	keep := len(A.hist)
+	for _, l := range []int{A.limit, B.limit, got.limit} {
+		if l < keep {
+			keep = l
+		}
+	}
+	okHist := listsEqual(got.hist, A.hist) || listsEqual(got.hist, B.hist) || (isSuffix(got.hist, A.hist) && len(got.hist) >= keep) ||
 		(ops[i].K == "hclear" && isPrefix(got.hist, B.hist))
 	if !okHist {
 		return viol("crash-history-inconsistent",
 			"death %s step %d of op %d (%s): next start loaded %s; before the op the session held %s, after it %s",
 			side, k, i, ops[i].K, show(got.hist), show(A.hist), show(B.hist))
 	}
-	okStash := listsEqual(got.stash, A.stash) || listsEqual(got.stash, B.stash) || isSuffix(got.stash, A.stash) ||
+	// the stash has no limit: old state, new state, or - for a clear, which
+	// truncates and rewrites - a prefix of the new state
+	okStash := listsEqual(got.stash, A.stash) || listsEqual(got.stash, B.stash) ||
 		(ops[i].K == "sclear" && isPrefix(got.stash, B.stash))
 	{
 		switch {
